@@ -26,7 +26,7 @@ P.classes |= {"Hierarchical", "Fork", "Array", "Leaf", "Compute", "Branch", "Mem
 P.class_parents.update({"Fork": ["Hierarchical"], "Hierarchical": ["Branch"], "Array": ["Branch", "Spatialable"], "Compute": ["Leaf", "Spatialable"],
                         "Memory": ["Leaf", "Spatialable"], "Toll": ["Leaf", "Spatialable"], "Container": ["Leaf", "Spatialable"]})
 P.assume_note("the architecture is a finite tree: the ghost functions LO / HI (depth-first leaf intervals), LEAFAT, CIDX, HEIGHT exist with the stated well-formedness (precondition); no Array nodes (outside the property's quantifier); leaf names are unique (Spec._get_flattened_architecture raises otherwise) and a leaf named like the requested compute is a Compute")
-P.assume_note("ArchNode.find(name, default=None) is assumed: it returns None exactly when no leaf of the subtree has that name; get_fanout() is an assumed pure number; FlattenedArch(list) keeps the list")
+P.assume_note("get_fanout() is an assumed pure number; FlattenedArch(list) keeps the list; Hierarchical and Fork nodes have no `name` attribute (getattr default None)")
 
 LO = Function("leaf_lo", Ref, IntSort())
 HI = Function("leaf_hi", Ref, IntSort())
@@ -34,6 +34,7 @@ LEAFAT = Function("leaf_at", IntSort(), Ref)
 CIDX = Function("child_index_of_leaf", Ref, IntSort(), IntSort())
 HEIGHT = Function("height", Ref, IntSort())
 RC = Function("rank_of_compute_named", Elem, IntSort())   # -1 if there is none
+RL = Function("rank_of_leaf_named", Elem, IntSort())      # -1 if there is none
 INC = Function("in_flattened", Ref, IntSort(), Elem, BoolSort())
 FANOUT = Function("get_fanout", Ref, RealSort())
 
@@ -79,9 +80,10 @@ def tree_axioms(ex):
     A.append(("leaf", ForAll([x], Implies(is_leaf(x), And(HI(x) == LO(x) + 1, LEAFAT(LO(x)) == x, LO(x) >= 0)), patterns=[LO(x)])))
     A.append(("ranks_nonnegative", ForAll([x], Implies(is_hier(x), LO(x) >= 0), patterns=[LO(x)])))
     A.append(("child_of_leaf_rank", ForAll([b, t], Implies(And(is_hier(b), LO(b) <= t, t < HI(b)), And(CIDX(b, t) >= 0, CIDX(b, t) < m(b), LO(ch(b, CIDX(b, t))) <= t, t < HI(ch(b, CIDX(b, t))))), patterns=[CIDX(b, t)])))
-    # the compute named c: its rank, or -1; leaf names are unique
-    A.append(("compute_rank", ForAll([c], Or(RC(c) == -1, And(RC(c) >= 0, is_compute(LEAFAT(RC(c))), LO(LEAFAT(RC(c))) == RC(c), Select(NAME, LEAFAT(RC(c))) == c)), patterns=[RC(c)])))
-    A.append(("names_unique", ForAll([x, c], Implies(And(is_leaf(x), Select(NAME, x) == c), And(is_compute(x), LO(x) == RC(c))), patterns=[z3.MultiPattern(LO(x), RC(c))])))
+    # leaf names are unique: RL(c) is the rank of the leaf named c, or -1; RC(c) is that rank if the leaf is a Compute, else -1
+    A.append(("leaf_rank", ForAll([c], Or(RL(c) == -1, And(RL(c) >= 0, is_leaf(LEAFAT(RL(c))), LO(LEAFAT(RL(c))) == RL(c), Select(NAME, LEAFAT(RL(c))) == c)), patterns=[RL(c)])))
+    A.append(("names_unique", ForAll([x], Implies(is_leaf(x), RL(Select(NAME, x)) == LO(x)), patterns=[LO(x)])))
+    A.append(("compute_rank", ForAll([c], RC(c) == If(And(RL(c) >= 0, is_compute(LEAFAT(RL(c)))), RL(c), IntVal(-1)), patterns=[RC(c)])))
     # the statement: which leaf ranks belong to the flattened architecture of subtree b for compute c
     kid = ch(b, CIDX(b, t))
     body = If(is_leaf(kid),
@@ -91,13 +93,64 @@ def tree_axioms(ex):
     return A
 
 
-@P.external("find", "ArchNode.find(name, default=None): None exactly when no leaf below has that name")
-def c_find(c):
-    n = c.arg("self", OBJ("?"))
-    nm = c.arg("name", ELEM)
-    c.arg("default", CONST(None), default=None)
-    r = c.result(OPT(OBJ("?")))
-    c.post("none_iff_absent", lambda r: r.isnone == Not(has_c(n.ref, nm)))
+def has_leaf(n, nm):
+    """a leaf named nm lies below (or is) node n"""
+    return And(RL(nm) >= 0, LO(n) <= RL(nm), RL(nm) < HI(n))
+
+
+P.field_owners["name"] = ["Leaf", "Array"]     # Hierarchical / Fork nodes have no `name`
+SENTINEL = VV.StrV("<_FIND_SENTINEL>")
+P.globals["_FIND_SENTINEL"] = SENTINEL
+
+
+def find_contract(label, with_default):
+    @P.fn(F, "ArchNode.find", label=label)
+    def c_find(c):
+        self_ = c.arg("self", OBJ("?"))
+        nm = c.arg("name", ELEM)
+        d = c.arg("default", CONST(None) if with_default else CONST(SENTINEL), default=SENTINEL)
+        c.applies((d is NONE) == with_default)
+        ex = c.ex
+        s = self_.ref
+        if c.mode == "verify":
+            for nm_, ax in tree_axioms(ex):
+                c.pre("tree." + nm_, ax)
+        c.pre("self_is_a_node_of_the_tree", And(s != NULL, Or(is_hier(s), is_leaf(s)), Not(And(is_hier(s), is_leaf(s)))))
+        c.decreases(HEIGHT(s))
+        NAME = ex.heap_arrays("name")[0]
+        found = lambda r: And(r != NULL, is_leaf(r), Select(NAME, r) == nm, LO(s) <= LO(r), LO(r) < HI(s))
+        if with_default:
+            c.result(OPT(OBJ("?")))
+            def opt(r):
+                if r is NONE:
+                    return BoolVal(True), NULL
+                if isinstance(r, VV.OptV):
+                    return r.isnone, r.val.ref
+                return BoolVal(False), r.ref
+
+            c.post("none_iff_no_leaf_below_has_the_name", lambda r: opt(r)[0] == Not(has_leaf(s, nm)))
+            c.post("else_the_leaf_with_that_name", lambda r: Implies(Not(opt(r)[0]), found(opt(r)[1])))
+        else:
+            c.result(OBJ("?"))
+            c.post("the_leaf_with_that_name", lambda r: found(r.ref))
+            c.raises("ValueError", when=lambda: Not(has_leaf(s, nm)), name="only_if_no_leaf_below_has_the_name", at_call=True)
+        if c.mode != "verify":
+            return
+        NA, NN = ex.heap_arrays("nodes", ex.heap0_view())
+        kids_n = Select(NN, s)
+        kid = lambda k: Select(Select(NA, s), k)
+
+        def inv(L):
+            bound = If(L.k < kids_n, LO(kid(L.k)), HI(s))
+            return [("no_leaf_with_the_name_among_the_children_seen", Not(And(RL(nm) >= 0, LO(s) <= RL(nm), RL(nm) < bound)))]
+
+        c.invariant("L0", inv)
+
+    return c_find
+
+
+find_contract("raising", False)
+find_contract("with_default_none", True)
 
 
 @P.external("get_fanout", "Spatialable.get_fanout(): a pure number")
@@ -127,6 +180,7 @@ def flatten_contract(label, return_fanout):
                 c.pre("tree." + nm, ax)
         s = self_.ref
         c.pre("self_is_a_hierarchical_of_the_tree", And(is_hier(s), s != NULL))
+        c.pre("a_leaf_with_the_requested_name_is_a_compute", Implies(RL(cn) >= 0, is_compute(LEAFAT(RL(cn)))))
         c.decreases(HEIGHT(s))
         res = c.result(TUP(SEQ(OBJ("?")), REAL) if return_fanout else SEQ(OBJ("?")))
         seq_of = (lambda r: r.items[0]) if return_fanout else (lambda r: r)
